@@ -31,6 +31,7 @@ COQ_KIND = {k: "K" + k[0].upper() + k[1:] for k in KINDS}
 COQ_OKIND = {"chan": "OChan", "array": "OArray", "func": "OFunc", "iface": "OIface", "foreign": "OUnsafe"}
 # ("o", "foreign", 77): the dynamic type of harness value ErrUser (*errors.errorString) - a type outside the
 # generated universe (model: Other OUnsafe 77), only ever the dynamic type of a converter result
+ZONE_UNIT = 10 ** 12     # time.Time leaves: see harness/c20 showTime
 FOREIGN = ("o", "foreign", 77)
 ANY_ = ("o", "iface", 1)
 ERROR_ = ("o", "iface", 2)
@@ -324,7 +325,13 @@ def go_val(c, t, v):
         return "%s{%s}" % (gt, ", ".join("%s: %s" % (go_val(c, t[1], a), go_val(c, t[2], b)) for a, b in v[1]))
     z = v[1]
     if k == "t":
-        return "time.Time{}" if z == 0 else "time.Unix(%d, 0).UTC()" % z
+        if z == 0:
+            return "time.Time{}"
+        if z >= 7 * ZONE_UNIT:
+            return "MonoBase" if z == 7 * ZONE_UNIT else "MonoStripped"
+        if z >= ZONE_UNIT:
+            return "time.Unix(%d, 0).In(Zone%d)" % (z % ZONE_UNIT, z // ZONE_UNIT)
+        return "time.Unix(%d, 0).UTC()" % z
     ok, oid = t[1], t[2]
     if ok == "chan":
         return "(%s)(nil)" % gt if z == 0 else "Chans%d[%d]" % (oid, z)
@@ -788,8 +795,15 @@ class Gen:
                 kv = self.val(t[1], 0.2)
                 es[sx_val(kv)] = (kv, self.val(t[2], 0.3))
             return ("mp", tuple(es[s] for s in sorted(es)))
-        if k == "t":
-            return ("op", 0 if r.random() < pz else r.randint(1, 2000000000))
+        if k == "t":      # zero / UTC / a fixed non-UTC zone / a reading with and without the monotonic part
+            if r.random() < pz:
+                return ("op", 0)
+            x = r.random()
+            if x < 0.5:
+                return ("op", r.randint(1, 2000000000))
+            if x < 0.8:
+                return ("op", r.choice([1, 2]) * ZONE_UNIT + r.randint(1, 2000000000))
+            return ("op", 7 * ZONE_UNIT + r.choice([0, 1]))
         ok, oid = t[1], t[2]
         if r.random() < pz:
             return ("op", 0)
@@ -1224,6 +1238,140 @@ def edge_cases(g):
     return out
 
 
+# ------------------------------------------------------------------ reused nested struct types, deep and wide declarations
+def dval(t, ctr, nilp=False):
+    """a value of type t whose leaves are pairwise DISTINCT (ctr = [n] counter), so that a swapped field shows"""
+    k = t[0]
+    if k in ("b", "n"):
+        ctr[0] += 1
+        bk = base_kind(t)
+        if bk == "string":
+            return ("x", b"v%d" % ctr[0])
+        if bk == "bool":
+            return ("i", 1)
+        if bk in ("float32", "float64", "complex64", "complex128"):
+            return ("i", f64bits(float(ctr[0])) if bk == "float64" else f32bits(float(ctr[0])) if bk == "float32" else 0)
+        lo, hi = INT_RANGE[bk]
+        return ("i", min(hi, 10 + ctr[0]))
+    if k == "s":
+        return ("st", tuple(dval(ft, ctr, nilp) for _, _, ft in t[2]))
+    if k == "p":
+        return ("nil",) if nilp else ("ptr", dval(t[1], ctr, nilp))
+    if k == "sl":
+        return ("sl", (dval(t[1], ctr, nilp), dval(t[1], ctr, nilp)))
+    if k == "m":
+        return ("mn",)
+    if k == "t":
+        ctr[0] += 1
+        return ("op", 1000 + ctr[0])
+    return zero_val(t)
+
+
+def std_calls(st, dt):
+    """Copy of distinct values; CopyTo into a used destination (other distinct values); pure CopyTo"""
+    c = [0]
+    v1, old, v2 = dval(st, c), dval(dt, c), dval(st, c)
+    return (("copy", v1, ()), ("copyto", v2, old, ()), ("pure", v1, zero_val(dt)), ("copyto", v1, dval(dt, c, nilp=True), ()))
+
+
+def reuse_cases():
+    """fixed stream: one NAMED nested struct type used in several fields of the source (same level, different levels,
+    behind single pointers, recursively) against destination fields whose struct types differ from each other in field
+    order, count (fewer / more), names and types; and the mirror image"""
+    A = mkstruct(101, (1, True, S_), (2, True, I_), (3, True, S_))
+    B1 = mkstruct(102, (1, True, S_), (2, True, I_), (3, True, S_))
+    B2 = mkstruct(103, (3, True, S_), (1, True, S_))                                            # reordered, fewer
+    B3 = mkstruct(104, (4, True, I_), (2, True, I_), (1, True, S_), (3, True, S_), (5, True, S_))   # more, other order, unmatched
+    B4 = mkstruct(105, (2, True, I_), (6, True, S_))                                            # other names
+    B5 = mkstruct(106, (1, True, I_), (2, True, I_))                                            # F1 of another type
+    W = mkstruct(107, (1, True, A), (2, True, I_))
+    WD = mkstruct(108, (2, True, I_), (1, True, B3))
+    L = mkstruct(109, (1, True, A), (2, True, A))
+    M1 = mkstruct(110, (1, True, B1), (2, True, B2))
+    M2 = mkstruct(111, (2, True, B1), (1, True, B3))
+    A1 = mkstruct(112, (1, True, S_), (2, True, I_))
+    A2 = mkstruct(113, (2, True, I_), (1, True, S_), (3, True, S_))
+    BB = mkstruct(114, (1, True, S_), (2, True, I_))
+    pairs = [
+        (mkstruct(120, (1, True, A), (2, True, A)), mkstruct(121, (1, True, B1), (2, True, B2))),
+        (mkstruct(120, (1, True, A), (2, True, A)), mkstruct(121, (1, True, B2), (2, True, B3))),
+        (mkstruct(120, (1, True, A), (2, True, A), (3, True, A)), mkstruct(121, (1, True, B3), (2, True, B4), (3, True, B1))),
+        (mkstruct(120, (1, True, ("p", A)), (2, True, A)), mkstruct(121, (1, True, ("p", B3)), (2, True, ("p", B2)))),
+        (mkstruct(120, (1, True, A), (2, True, ("p", A))), mkstruct(121, (1, True, ("p", B2)), (2, True, B1))),
+        (mkstruct(120, (1, True, A), (2, True, W)), mkstruct(121, (1, True, B2), (2, True, WD))),          # different levels
+        (mkstruct(120, (1, True, W), (2, True, A), (3, True, W)), mkstruct(121, (1, True, WD), (2, True, B4), (3, True, W))),
+        (mkstruct(120, (1, True, L), (2, True, L)), mkstruct(121, (1, True, M1), (2, True, M2))),          # recursive reuse, depth 3
+        (mkstruct(120, (1, True, L), (2, True, ("p", L)), (3, True, A)), mkstruct(121, (1, True, M2), (2, True, ("p", M1)), (3, True, B2))),
+        (mkstruct(120, (1, True, A), (2, True, A)), mkstruct(121, (1, True, B1), (2, True, B5))),           # second one: type mismatch
+        (mkstruct(120, (1, True, A1), (2, True, A2)), mkstruct(121, (1, True, BB), (2, True, BB))),         # mirror image
+        (mkstruct(120, (1, True, A2), (2, True, ("p", A1)), (3, True, A2)), mkstruct(121, (1, True, ("p", BB)), (2, True, BB), (3, True, B3))),
+    ]
+    return [dict(src=a, dst=b, opts=(), calls=std_calls(a, b)) for a, b in pairs]
+
+
+def deep_wide_cases():
+    """fixed stream: declarations nested 9-11 levels deep and 20-30 fields wide"""
+    out = []
+    for depth, base in ((9, 200), (10, 230), (11, 260)):
+        s = mkstruct(base, (1, True, I_), (2, True, S_))
+        d = mkstruct(base + 1, (2, True, S_), (1, True, I_))
+        for lvl in range(1, depth + 1):
+            named = lvl % 2 == 0
+            ws = ("p", s) if lvl % 3 == 0 else s
+            wd = ("p", d) if lvl % 3 != 1 else d
+            s = mkstruct(base + 2 * lvl if named else None, (1, True, ws), (2, True, I_))
+            d = mkstruct(base + 2 * lvl + 1 if named else None, (2, True, I_), (1, True, wd), (3, True, S_))
+        out.append(dict(src=s, dst=d, opts=(), calls=std_calls(s, d)[:3]))
+    leafs = [I_, S_, ("b", "int64"), ("b", "bool"), ("b", "uint8"), ("p", I_), ("sl", I_), ("t",), ("b", "float64"), ("m", S_, I_)]
+    for width, base in ((20, 300), (30, 320)):
+        inner = mkstruct(base, *[(f, True, leafs[f % len(leafs)]) for f in range(1, 13)])
+        fs = [(f, f % 7 != 0, leafs[(3 * f) % len(leafs)]) for f in range(1, width + 1)]
+        fs[4] = (5, True, inner)
+        fs[width // 2] = (width // 2 + 1, True, ("p", inner))
+        dfs = list(reversed(fs))
+        dfs[2] = (dfs[2][0], dfs[2][1], S_ if dfs[2][2] != S_ else I_)          # one mismatching type
+        del dfs[7]                                                                    # one field missing
+        dfs.append((width + 1, True, I_))                                           # one unmatched
+        s, d = mkstruct(base + 1, *fs), mkstruct(base + 2, *dfs)
+        out.append(dict(src=s, dst=d, opts=(("ig", (dfs[2][0],)),), calls=std_calls(s, d)[:3]))
+    return out
+
+
+def fam_reuse(g):
+    """seeded: a named struct type reused k times in the source (direct, behind a pointer, inside another reused named struct)
+    against destination struct types derived independently (shuffled, fields dropped / added / retyped); or the mirror image"""
+    r = g.r
+    leafs = [I_, S_, ("b", "int64"), ("b", "bool"), ("p", I_), ("sl", S_), ("t",), ("n", g.fresh(), "int")]
+    A = ("s", g.fresh(), tuple((f, True, r.choice(leafs)) for f in g.fids(r.randint(2, 4), 6)))
+    W = ("s", g.fresh(), ((1, True, A), (2, True, r.choice(leafs)), (3, True, ("p", A) if r.random() < 0.5 else A)))
+    w = {"same": 0.5, "drop": 0.25, "mismatch": 0.1, "ptrflip": 0.05, "rec": 0.1}
+
+    def variant(t):
+        d = g.derive(t, w, extra=r.randint(0, 2), shuffle=True, depth=2)
+        return d if d[1] is not None and d != t else ("s", g.fresh(), d[2])
+    k = r.randint(2, 4)
+    sfs, dfs = [], []
+    for f in g.fids(k, 8):
+        base = W if r.random() < 0.3 else A
+        sp, dp = r.random() < 0.3, r.random() < 0.3
+        sfs.append((f, True, ("p", base) if sp else base))
+        dv = variant(base)
+        dfs.append((f, True, ("p", dv) if dp else dv))
+    if r.random() < 0.5:
+        r.shuffle(dfs)
+    S, D = ("s", g.fresh(), tuple(sfs)), ("s", g.fresh(), tuple(dfs))
+    if r.random() < 0.25:      # mirror image: one destination type reused against different source types
+        S, D = D, S
+    c = [r.randint(0, 50)]
+    calls = [("copy", dval(S, c), ()), ("copyto", dval(S, c), dval(D, c), ()), ("pure", dval(S, c), zero_val(D))]
+    if r.random() < 0.5:
+        calls.append(("copyto", g.val(S, 0.3), g.val(D, 0.2), ()))
+    return dict(src=S, dst=D, opts=(), calls=tuple(calls))
+
+
+FAMILIES.append(("reuse", fam_reuse, 12))
+
+
 def nil_cases():
     T = mkstruct(None, (1, True, I_), (2, True, S_))
     U = mkstruct(None, (1, True, S_), (3, True, I_))             # F1 of another type: a copy would fail with a Kind error
@@ -1267,6 +1415,8 @@ def corpus():
     # nil arguments (the nil-argument fix): every shape, on matching and mismatching pairs, so that the ORDER of the checks
     # shows (nil interface first; then the four entry kind checks; then typed nil pointers)
     cs += nil_cases()
+    cs += reuse_cases()
+    cs += deep_wide_cases()
     # the replay of the known finding C20:copy:zero-skip (known_findings.json), verbatim
     Z1 = mkstruct(None, (1, True, I_))
     cs.append(dict(src=Z1, dst=Z1, opts=(), calls=(("copyto", ("st", (("i", 0),)), ("st", (("i", 9),)), ()),)))
